@@ -15,6 +15,7 @@ EXPLANATION = (
     "weight recursion (owned by C11.R6). R3 loops: every natural loop is an iterator `for`/adapter loop or is in the confirmed table with its progress measure."
     " Table verdicts that are evaluated rather than quoted: totals-gate (C01.R9), weights-capped (C05.R1), guarded-swap, priced-pool (every use of the reserves of a built-in pool as a divisor is unreachable when either reserve of that pool is zero - all three pools), guarded-withdraw (0 < total <= recorded liquidity), selected (C15 selection lengths). Imports C20.R3 and the activation table C06.R5."
     " K8 panic sites (`assert!`) are keyed by the asserted condition. R4: the nesting depth of a MelVM value is bounded or its drop is iterative (today neither: recorded finding D25)."
+    ' R2 `weight-cycle/depth-unbounded`: the weight recursion must carry a depth bound — its depth is one level per nested Loop, i.e. chosen by the sender (recorded finding D33: 15 KB of nested loops abort the validator).'
 )
 NOT_DECIDED = ["aborts from memory exhaustion in general (C11.R5 covers the known materialisation sites)", "termination and panic-freedom of trusted-base code beyond the summarised conditions",
                "the assumptions marked 'assume' in the site table: bounded horizon (heights, epochs, per-covenant coin counts below 2^64; halving index below 128), the work bound of MelPoW "
